@@ -71,21 +71,30 @@ def gen_case(rng):
     nres = rng.randint(1, 5)
     ntypes = rng.randint(1, 2)
     templates, shapes = {}, {}
+    # template keys are graph hashes in real runs; residue names are independent of them, two
+    # residue types may share one name, and the table may hold further entries (decoys) under
+    # keys that look like residue names
+    resname_of = {}
     for t in range(ntypes):
         k = rng.choice([1, 2, 3, 4, 4, 5, 6])
         templates[f"T{t}"], shapes[f"T{t}"] = gen_template(rng, k)
+        resname_of[f"T{t}"] = rng.choice(['RA', 'RB', f"T{t}"])
+    for tname, rn in list(resname_of.items()):
+        if rn != tname and rn not in templates and rng.random() < 0.6:
+            decoy, _ = gen_template(rng, len(templates[tname]))
+            templates[rn] = dict(zip(templates[tname].keys(), decoy.values()))
     molecule = vermouth.molecule.Molecule()
     res_atoms = []
     idx = 1
     restype = []
     for r in range(nres):
-        tname = rng.choice(sorted(templates))
+        tname = rng.choice(sorted(resname_of))
         restype.append(tname)
         names = list(templates[tname].keys())
         rng.shuffle(names)
         atoms = []
         for nm in names:
-            molecule.add_node(idx, resname=tname, resid=r + 1, atomname=nm)
+            molecule.add_node(idx, resname=resname_of[tname], resid=r + 1, atomname=nm)
             if atoms:
                 molecule.add_edge(rng.choice(atoms), idx)
             atoms.append(idx)
